@@ -29,6 +29,12 @@ CHECKS["C11"] = dict(
     technique="Coq proof (recursive traversal model) + extraction-based correspondence with scripted visitors",
     design="4/C11")
 
+CHECKS["C08"] = dict(
+    text="Coq theorem: for every string of Unicode scalar values, the lexer model reads print_string's output back to exactly that string (escape table regenerated from the implementation every run, obligations re-checked by coqc). Block strings and whole documents: exhaustive/generated round-trip checks on the implementation (both string forms in programmatic trees at nesting depths 0-3, all lexer-range block values over a 14-symbol adversarial alphabet, grammar-generated documents incl. experimental syntaxes, print fixed point)",
+    note="proof covers the quoted form only; block-string round trip and parse(print(d)) == d are explored on the implementation, not proved (parser/printer not modelled)",
+    technique="Coq proof (quoted string round trip over regenerated escape table) + exhaustive/generated round-trip exploration",
+    design="4/C08")
+
 NOT_YET = {}
 
 
